@@ -52,7 +52,7 @@ class DevA(Driver):
         "MAIN",
         vectors=dict(
             text=properties.TextVector("V1", elements=dict(first=properties.Text("A"), second=properties.Text("B"))),
-            number=properties.NumberVector("V2", elements=dict(first=properties.Number("A"), second=properties.Number("B"))),
+            number=properties.NumberVector("V2", elements=dict(first=properties.Number("A"), second=properties.Number("B", format="%5.2f"))),
             light=properties.LightVector("V22", elements=dict(first=properties.Light("A"))),
             switch=properties.SwitchVector(
                 "V3", rule="AnyOfMany", elements=dict(first=properties.Switch("A"), second=properties.Switch("B"))
